@@ -29,6 +29,10 @@ def gen_cases(seed, tier):
             for i, s_ in enumerate(SPECIES):
                 if (kind == "perfectbinomial" or modes[s_] != "perfect") and rng.random() < 0.6: c["x"][i] = rng.choice([0.4, 0.25, 2.4, 7.25, 12.125])   # fractional part < 1/2: the sampler rounds the amount to the NEAREST count (see DESIGN, observations)
             c["fractional"] = True
+        # abundant species (more than a thousand copies): the share is still a count between 0 and the mother's amount, one uniform per molecule
+        # (seeded change S7_C19: above 1000 trials an unclamped normal approximation returning `unsigned` took over)
+        elif rng.random() < 0.12:
+            c = cases[-1]; i = rng.randrange(len(SPECIES)); c["x"][i] = float(rng.choice([1001, 1200, 1500, 2500])); c["noise"] = rng.choice([0.3, 0.5, 0.5]); c["abundant"] = True
     for _ in range(40 if tier == "quick" else 500):
         cases.append({"family": "lineage", "seed": rng.randint(1, 2**31), "reactions": rng.choice(["none", "birthdeath", "decay_only"]), "growth": rng.choice(["rule_linear", "rule_mult", "event_linear"]),
                       "division": rng.choice(["rule_volume", "rule_time", "rule_deltav", "event", "none"]), "death": rng.choice(["none", "none", "rule", "event"]),
@@ -67,7 +71,7 @@ def _partition_impl(case):
     if case["splitter"] == "lineage": cs.py_set_volume(case["V"])
     py_seed_random(case["seed"]); d = sp.py_partition(cs); nxt = py_rand_int()
     py_seed_random(case["seed"]); raws = []; pos = -1
-    for k in range(400):
+    for k in range(400 + int(sum(case["x"]))):
         r = py_rand_int(); raws.append(str(r))
         if r == nxt: pos = k; break
     vol = lambda c: float(c.py_get_initial_volume()) if case["splitter"] == "lineage" else float(c.py_get_volume())
